@@ -11,8 +11,14 @@ from props.c33 import Rig, reply_vals, wire_op
 
 ID = "C34"
 LEAN_TARGETS = ["TornadoModel.C34.Props"]
-THEOREMS = [
-]
+_TC, _TE = "TornadoModel.C34.Cond.", "TornadoModel.C34.Event."
+THEOREMS = [_TC + n for n in (
+    "inv_after", "popN_spec", "liveQueue_is_arrival_order", "notify_wakes_min", "notifyAll_wakes_all", "notify_sets_true",
+    "settle_evs_false", "timeout_false_not_counted", "settled_final", "cond_gc_purges",
+)] + [_TE + n for n in (
+    "inv_after", "no_residue", "pending_registered", "set_means_nobody_waits", "wait_when_set", "set_completes",
+    "deadline_times_out", "settled_final",
+)]
 TRUSTED = [
     "asyncio event loop ordering as abstracted by the model's drain (see C33); gen.with_timeout / chain_future as "
     "summarised in C34/Model.lean (`Event.set … raced`): exercised by the correspondence only",
@@ -27,7 +33,15 @@ RULE = ("op sequences (<=25 ops, <=8 waits) over Condition (wait/notify n/notify
         "Event (wait/set/clear/fire/cancel/raceSet/raceCancel); non-trivial = Condition: some notify woke a waiter while a "
         "dead (timed-out or cancelled) waiter existed; Event: a timed wait completed by set and another one timed out")
 EXHAUSTIVE = {"quick": True, "thorough": True}
-CLAUSES = {}
+CLAUSES = {
+    "a condition wakes exactly min(n, live waiters) waiters in arrival order with True": "Cond.notify_wakes_min + Cond.popN_spec + Cond.liveQueue_is_arrival_order + Cond.notify_sets_true (+ notifyAll_wakes_all)",
+    "a timed-out wait resolves False and is never counted as notified": "Cond.settle_evs_false + Cond.timeout_false_not_counted + Cond.settled_final",
+    "an event's wait completes iff the event is set at or after the call before its deadline, otherwise TimeoutError":
+        "Event.wait_when_set + Event.set_completes + Event.set_means_nobody_waits + Event.deadline_times_out + Event.settled_final; "
+        "the 'only a due deadline produces TimeoutError' direction is tie only (Spec oracle)",
+    "finished waits leave no residue": "Event.no_residue + Event.pending_registered (Condition: Cond.cond_gc_purges)",
+    "checked against a sequential reference model": "tie: Spec.Cond / Spec.Event are the oracle on every case",
+}
 PARALLEL = True
 CASE_TIMEOUT = 120
 LEVEL_NOTE = ("exhaustive sub-domains: quick = every op sequence of length 3 over _CA / _EA (10 / 9 letters) and of length 4 "
